@@ -1,5 +1,5 @@
 """Gated family: C11 C17. Model: spec/gated/Gated.tla. Binding: spec -> code replay on a real gated.Filter."""
-import json, os, shutil, time, concurrent.futures as cf
+import json, os, re, shutil, time, concurrent.futures as cf
 from vlib import *
 
 CONST = '''CONSTANTS
@@ -14,6 +14,12 @@ CONST = '''CONSTANTS
 '''
 INVS = "INVARIANTS ExactlyOnce ArrivalOrder NoMixing WholeGroup NoExpiredAfterProcess EmptyAfterFlushAll MemoryBounded\n"
 PROPS = "PROPERTIES DiscardOnlyForCause PassThrough EmptyIdRejected ExpiredOldestFirst\n"
+
+
+class FilterDied(Exception):
+    def __init__(self, what, stderr):
+        Exception.__init__(self, what)
+        self.what, self.stderr = what, stderr
 
 
 def consts(depth, broker=True, fails="FailsAll", dev="", e=1, clock=4, events=None):
@@ -53,6 +59,10 @@ def replay(vh, scr, broker, e, tag, edges=None, walks=None, conc=0):
     t0 = time.time()
     p = run_vh(vh, args, timeout=3000)
     if p.returncode != 0:
+        m = re.search(r"^(fatal error: .*|panic: .*)$", p.stderr, re.M)
+        if m and "filters/gated.(*Filter)" in p.stderr:
+            # the process died inside the filter (unlock of an unlocked mutex, concurrent map writes, deadlock, nil dereference)
+            raise FilterDied(m.group(1), p.stderr)
         raise Broken("gated replay failed: " + p.stderr[-2000:])
     r = json.load(open(outp))
     log("  replay %-12s %5.1fs edges=%d walks=%d calls=%d mismatches=%d" % (tag, time.time() - t0, r["edges"], r["walks"], r["calls"], r["mismatch_count"]))
@@ -79,6 +89,9 @@ def record_hist(vh, scr, seed, n, broker, tag):
     rp = scr.path("ghist-%s.json" % tag)
     p = run_vh(vh, ["gated-hist", "-seed", str(seed), "-n", str(n), "-e", "2", "-broker=%s" % ("true" if broker else "false"), "-hist", hist, "-out", rp], timeout=1200)
     if p.returncode != 0:
+        m = re.search(r"^(fatal error: .*|panic: .*)$", p.stderr, re.M)
+        if m and "filters/gated.(*Filter)" in p.stderr:
+            raise FilterDied(m.group(1), p.stderr)
         raise Broken("gated-hist failed: " + p.stderr[-1500:])
     return hist, json.load(open(rp))
 
@@ -162,6 +175,13 @@ def conc_traces(vh, scr, prop, seed, quick, out):
 
 
 def run(prop, tier, seed, out):
+    try:
+        run1(prop, tier, seed, out)
+    except FilterDied as d:
+        out.violation("the process died inside gated.Filter while the model's histories / concurrent senders were run on it: " + d.what, {"stderr": d.stderr[-6000:]})
+
+
+def run1(prop, tier, seed, out):
     quick = tier == "quick"
     with Scratch("gated") as scr:
         vh = build_harness(scr)
